@@ -279,6 +279,18 @@ theorem gen_step_actions_sound (d : Nat) (hd : 0 < d) (rc : Bool) (cache : List 
       else some ((stepThr rc A cache t).1, (stepThr rc A cache t).2.newArr) :=
   gq_stepActs_sound A d hd rc cache t hpc hC
 
+/-- ... at the level of the whole system: a step of thread `i` of ANY state (its R, C or W phase, not panicking) changes the shared cache
+    exactly as the execution of that step's actions does -/
+theorem gen_global_step_is_exec (d : Nat) (hd : 0 < d) (σ : St P) (i : Nat) (t : Thr P) (ht : σ.thr[i]? = some t)
+    (hpc : t.pc = .R ∨ t.pc = .C ∨ t.pc = .W) (hC : t.pc = .C → t.newArr.length = t.oldR)
+    (hnp : (stepThr true A σ.cache t).2.pc ≠ .panicked) :
+    ∃ arr, execActs A d (stepActs d true A σ.cache t) (σ.cache, t.newArr) = some ((step true A i σ).cache, arr) ∧
+      (step true A i σ).thr[i]? = some (stepThr true A σ.cache t).2 ∧ arr = (stepThr true A σ.cache t).2.newArr := by
+  refine ⟨(stepThr true A σ.cache t).2.newArr, ?_, ?_, rfl⟩
+  · rw [gq_stepActs_sound A d hd true σ.cache t hpc hC, if_neg hnp]
+    simp [step, ht]
+  · exact step_getElem?_self A true i σ t ht
+
 /-- `Decryptor::compute_secret_key_array` IS the model's R, C, W steps (with the re-check): for every requested power, every `n`, `k`
     (degree, key primes), every cache `cR` seen under the read lock and every cache `cW` seen under the write lock (whatever the other
     threads did in between).  Hypotheses: `n·k > 0`; the new array fits a `usize` (else `vec![0; …]`'s size computation panics);
